@@ -527,6 +527,7 @@ def run(prog: Program, rep: Report, tier: str) -> None:
     from ..share import share
 
     share(prog, rep, "C08", ("R08.1",), "R05.6", "a restart restores identifiers and rows of the last record only (slices of the warm-start reader)", 3)
+    share(prog, rep, "C06", ("R06.6",), "R05.8", "in the dense layout the identifier of a particle is its row: rows are removed (compactification) only under the sparse layout, which writes the identifier with every row", 1, only=lambda o: "compactif" in o.construct or "call site" in o.construct)
     share(prog, rep, "C08", ("R08.2",), "R05.7", "a restart continues the identifiers after every identifier used so far", 0)
 
 
